@@ -351,7 +351,9 @@ Proof.
 Qed.
 
 Lemma loop_count_eq {A} (l : list A) (inp : bytes) : zlen l <= zlen inp -> loop_count (zlen l) inp = length l.
-Proof. intros H. unfold loop_count. rewrite Z.min_l by lia. unfold zlen. apply Nat2Z.id. Qed.
+Proof.
+  intros H. unfold loop_count. destruct (zlen l <=? 4096); [|rewrite Z.min_l by lia]; unfold zlen; apply Nat2Z.id.
+Qed.
 
 Lemma rd_strs_enc ups have rest b :
   0 <= have ->
@@ -597,9 +599,11 @@ Lemma loop_count_nonneg_case {A} n inp (l : list A) (rest : bytes) :
   (Z.of_nat (length l) <? n) = false.
 Proof.
   intros Hn H1 H2. unfold loop_count in *. pose proof (zlen_nonneg rest). pose proof (zlen_nonneg inp).
-  destruct (Z_le_dec n (zlen inp + 1)).
-  - rewrite Z.min_l in * by lia. rewrite H2. rewrite Z2Nat.id by lia. lia.
-  - rewrite Z.min_r in * by lia. rewrite Z2Nat.id in H1 by lia. lia.
+  destruct (n <=? 4096) eqn:E.
+  - rewrite H2. rewrite Z2Nat.id by lia. lia.
+  - destruct (Z_le_dec n (zlen inp + 1)).
+    + rewrite Z.min_l in * by lia. rewrite H2. rewrite Z2Nat.id by lia. lia.
+    + rewrite Z.min_r in * by lia. rewrite Z2Nat.id in H1 by lia. lia.
 Qed.
 
 Lemma rd_code_sf (rdk : bytes -> Z -> ures cst) inp b :
@@ -893,4 +897,41 @@ Proof.
     assert (E2 : fold_right (fun s acc => 8 + zlen s + acc) 0 (upnames h) = sumz (fun s => 8 + zlen s) (upnames h)).
     { induction (upnames h) as [|x l IHl]; cbn [fold_right sumz]; [reflexivity|]. now rewrite IHl. }
     lia.
+Qed.
+
+(* ------------------------------------------------------------------ *)
+(* no size hypothesis                                                   *)
+
+(* The round trip holds for EVERY well-formed constant whose encoding fits in one Go
+   allocation (fits: 48 bytes per encoded byte + 66048 <= 2^48, the allocator's own limit):
+   no bound on the number of opcodes, lines, constants, nested functions, nesting depth or
+   string lengths, and independent of maxEagerRead — the proof of rd_bytes_enc goes through
+   both branches of readBytes (n <= maxEagerRead: make + ReadFull; beyond: io.CopyN). *)
+Theorem unmarshal_marshal_any_size : forall k rest,
+  wf k -> fits k -> unmarshal maxAlloc 0 (marshal k ++ rest) = UOk k rest 0.
+Proof. intros k rest W F. apply unmarshal_marshal_unlimited; [exact W|unfold fits in F; lia]. Qed.
+
+Lemma Forall_repeat {A} (P : A -> Prop) x n : P x -> Forall P (repeat x n).
+Proof. intros H. induction n; cbn [repeat]; constructor; auto. Qed.
+
+(* an instance above every size threshold of marshal.go: 16385 opcodes and lines (65540 bytes
+   each: the io.CopyN branch), a 65537-byte string constant, 201 sibling functions *)
+Definition ex_big : cst :=
+  KCode (mkHead [99] [102] (repeat 1207959552 (Z.to_nat 16385)) (repeat 7 (Z.to_nat 16385)) 0 1 0 [])
+        (KStr (repeat 65 (Z.to_nat 65537)) :: repeat (KCode (mkHead [99] [] [1207959552] [1] 0 1 0 []) []) 201).
+
+Example ex_big_roundtrip : unmarshal maxAlloc 0 (marshal ex_big ++ [1; 2; 3]) = UOk ex_big [1; 2; 3] 0.
+Proof.
+  apply unmarshal_marshal_any_size.
+  - unfold ex_big. rewrite wf_code. split.
+    + constructor; cbn [ops lines upvalueCount regCount cellCount].
+      * apply Forall_repeat. unfold u32_ok. lia.
+      * apply Forall_repeat. unfold i32_ok. lia.
+      * unfold cnt_ok; lia.
+      * unfold cnt_ok; lia.
+      * unfold cnt_ok; lia.
+    + intros k [<-|Hk]; [exact I|]. apply repeat_spec in Hk. subst k. rewrite wf_code. split.
+      * constructor; cbn; repeat constructor; unfold u32_ok, i32_ok, cnt_ok; lia.
+      * intros k [].
+  - unfold fits. assert (E : cost ex_big = 209547) by (vm_compute; reflexivity). rewrite E. vm_compute. discriminate.
 Qed.
